@@ -50,6 +50,71 @@ fn case<G: CurveTag>(bytes: &[u8], col: &mut Collector, max_gates: usize, large:
         col.class("skipped:not-large");
         return Ok(());
     }
+    check_prog::<G>(prog, &mut ch, col, if large { 1 } else { 0 })
+}
+
+/// Two openings (v, r) and (v − 2, r + 1) of one commitment under bases with B_blinding = 2·B:
+/// statement, transcript and external randomness are identical, only the blinding factor of
+/// commitment j differs — the prover's RNG is keyed with it, so the first blinded point differs.
+fn blinding_sensitivity<G: CurveTag>(prog: &crate::program::Program, js: &[usize], col: &mut Collector) -> Result<(), Failure> {
+    use crate::program::Op;
+    use crate::scalars::ScalarSpec;
+    use ark_bulletproofs::PedersenGens;
+    let def = crate::drive::pc_gens::<G>();
+    let pc2 = PedersenGens { B: def.B, B_blinding: (def.B.into_group() + def.B.into_group()).into_affine() };
+    // small known openings everywhere
+    let mut base = prog.clone();
+    let mut k = 0u64;
+    for op in base.ops.iter_mut() {
+        if let Op::Commit { v, blind } = op {
+            *v = ScalarSpec::Small(10 + k);
+            *blind = ScalarSpec::Small(5 + 3 * k);
+            k += 1;
+        }
+    }
+    let pa = run_prover::<G>(&base, &ProveOpts { pc_gens: Some(pc2), ..Default::default() });
+    let Some(proof_a) = pa.proof.as_ref() else { return Ok(()) };
+    let ma = ProofMirror::from_proof(proof_a);
+    for &j in js {
+        let mut alt = base.clone();
+        let mut k = 0usize;
+        for op in alt.ops.iter_mut() {
+            if let Op::Commit { v, blind } = op {
+                if k == j {
+                    *v = ScalarSpec::Small(10 + k as u64 - 2);
+                    *blind = ScalarSpec::Small(5 + 3 * k as u64 + 1);
+                }
+                k += 1;
+            }
+        }
+        let pb = run_prover::<G>(&alt, &ProveOpts { pc_gens: Some(pc2), ..Default::default() });
+        let Some(proof_b) = pb.proof.as_ref() else { continue };
+        if pb.commitments != pa.commitments {
+            col.note("blinding sensitivity: the two openings do not give the same commitment (not evaluated)");
+            continue;
+        }
+        col.evals_add(1);
+        let mb = ProofMirror::from_proof(proof_b);
+        if ma.A_I1 == mb.A_I1 || ma.S1 == mb.S1 {
+            return Err(Failure::new(
+                "C09:rng-not-keyed-with-blinding",
+                format!("two proofs of one statement ({} commitments) from the same transcript and external randomness, opened with different blinding factors for commitment #{}, carry the same A_I1 / S1: the prover RNG does not depend on that blinding factor", k, j),
+                json!({"program": base.to_json(), "commitment": j, "bases": "B_blinding = 2*B", "openings": [[10 + j as u64, 5 + 3 * j as u64], [8 + j as u64, 6 + 3 * j as u64]]}),
+            ));
+        }
+    }
+    col.class("blinding-sensitivity");
+    Ok(())
+}
+
+/// mode 0: every draw probed; 1: a sample of 14 probes; 2: circuits at scale (3 probes)
+fn check_prog<G: CurveTag>(mut prog: crate::program::Program, ch: &mut Choices, col: &mut Collector, mode: u8) -> Result<(), Failure> {
+    let large = mode >= 1;
+    let shape = prog.shape();
+    if shape.padded() > 256 {
+        prog.cap_p = Cap::Exact;
+    }
+    let ch: &mut Choices = ch;
     let (n, n1, n2) = (shape.n(), shape.n1, shape.n2);
     let pj = |s: String| -> Value { json!({"program": prog.to_json(), "at": s}) };
     let p0 = run_prover::<G>(&prog, &ProveOpts { record: true, ..Default::default() });
@@ -66,10 +131,19 @@ fn case<G: CurveTag>(bytes: &[u8], col: &mut Collector, max_gates: usize, large:
     }
     let rekeys: Vec<&Vec<u8>> = p0.log.iter().filter_map(|e| if let Event::Rekey { witness, .. } = e { Some(witness) } else { None }).collect();
     let want: Vec<Vec<u8>> = p0.model.v_blind.iter().map(enc_scalar).collect();
-    for w in &want {
-        if !rekeys.iter().any(|r| *r == w) {
-            return Err(Failure::new("C09:rng-not-keyed-with-blinding", "the prover RNG is not rekeyed with every commitment blinding factor", pj(format!("{} rekeys for {} commitments", rekeys.len(), want.len()))));
-        }
+    let literal = want.iter().all(|w| rekeys.iter().any(|r| *r == w));
+    if !literal {
+        // the blinding factors do not enter the RNG one by one as plain encodings: decide by
+        // behaviour instead (every blinding factor must still influence the RNG)
+        let all: Vec<usize> = (0..want.len()).collect();
+        blinding_sensitivity::<G>(&prog, &all, col)?;
+        col.class("rekey-not-literal(sensitivity-checked)");
+    } else if !want.is_empty() && ((mode == 2 && want.len() >= 1000) || (mode != 2 && ch.chance(40))) {
+        let m = want.len();
+        let mut js = vec![0, m / 2, m.saturating_sub(2), m - 1];
+        js.sort();
+        js.dedup();
+        blinding_sensitivity::<G>(&prog, &js, col)?;
     }
     let fin: Vec<&Vec<u8>> = p0.log.iter().filter_map(|e| if let Event::Finalize { external, .. } = e { Some(external) } else { None }).collect();
     let mut ext = CountingRng::new(prog.seed, 1);
@@ -84,7 +158,7 @@ fn case<G: CurveTag>(bytes: &[u8], col: &mut Collector, max_gates: usize, large:
     }
 
     // a caller RNG that cannot deliver must not lead to a proof (one keyed without external randomness)
-    if ch.chance(40) {
+    if mode != 2 && ch.chance(40) {
         let pf = run_prover::<G>(&prog, &ProveOpts { failing_rng: true, ..Default::default() });
         if pf.proof.is_some() {
             return Err(Failure::new("C09:proof-without-external-randomness", "the prover emitted a proof although the caller's RNG failed to deliver any randomness", pj("failing external RNG".into())));
@@ -93,8 +167,8 @@ fn case<G: CurveTag>(bytes: &[u8], col: &mut Collector, max_gates: usize, large:
     }
 
     // ---- 2. seed laws --------------------------------------------------------------------
-    let p_same = run_prover::<G>(&prog, &ProveOpts::default());
-    if p_same.bytes != p0.bytes {
+    let p_same = if mode == 2 && n >= 2048 { None } else { Some(run_prover::<G>(&prog, &ProveOpts::default())) };
+    if p_same.map(|p| p.bytes != p0.bytes).unwrap_or(false) {
         return Err(Failure::new("C09:not-reproducible", "the same external randomness does not reproduce the same proof", pj("same seed".into())));
     }
     let p_other = run_prover::<G>(&prog, &ProveOpts { seed: Some(prog.seed ^ 0x9e37_79b9), ..Default::default() });
@@ -128,6 +202,19 @@ fn case<G: CurveTag>(bytes: &[u8], col: &mut Collector, max_gates: usize, large:
 
     // ---- 3. draws ------------------------------------------------------------------------
     let stream = rng_stream(&p0.log);
+    // whatever the sampler does, 2n masking entries and 8 (11) blinding scalars that are fresh
+    // and independent need at least that many field elements' worth of RNG output
+    {
+        let need_draws = 2 * n + 8 + if n2 > 0 { 3 } else { 0 };
+        let min_bytes = need_draws * ((<Fr<G> as PrimeField>::MODULUS_BIT_SIZE as usize - 1) / 8);
+        if stream.len() < min_bytes {
+            return Err(Failure::new(
+                "C09:too-little-randomness",
+                format!("the prover drew {} bytes from its RNG; {} masking entries and blinding scalars that are fresh draws need at least {} ({}+{} gates)", stream.len(), need_draws, min_bytes, n1, n2),
+                pj("RNG output consumed".into()),
+            ));
+        }
+    }
     let Some(draws) = decode_draws::<Fr<G>>(&stream) else {
         col.note("RNG stream does not decode into whole draws: probes not evaluated");
         return finish(col, &prog, &shape, false);
@@ -161,7 +248,7 @@ fn case<G: CurveTag>(bytes: &[u8], col: &mut Collector, max_gates: usize, large:
 
     // ---- 4. per-draw sensitivity probes -----------------------------------------------------
     let pc = prog_pc::<G>(&prog);
-    let gens = bp_gens::<G>(256, prog.party_cap as usize);
+    let gens = bp_gens::<G>(shape.padded().max(256), prog.party_cap as usize);
     let gv: Vec<G> = gens.G(n.max(1), 1).cloned().collect();
     let hv: Vec<G> = gens.H(n.max(1), 1).cloned().collect();
     let which_gen = |diff: G| -> Option<Gen> {
@@ -183,7 +270,7 @@ fn case<G: CurveTag>(bytes: &[u8], col: &mut Collector, max_gates: usize, large:
     let mut unused = 0;
     // large circuits: a sample of the draws is probed (every probed draw must still hit at most
     // one generator of one commitment); small ones: every draw
-    let probe_set: Vec<usize> = if large { (0..14).map(|_| ch.below(draws.len())).collect() } else { (0..draws.len()).collect() };
+    let probe_set: Vec<usize> = if large { (0..if mode == 2 { 2 } else { 14 }).map(|_| ch.below(draws.len())).collect() } else { (0..draws.len()).collect() };
     for j in probe_set {
         let mut d2 = draws.clone();
         d2[j] += Fr::<G>::one();
@@ -229,7 +316,7 @@ fn case<G: CurveTag>(bytes: &[u8], col: &mut Collector, max_gates: usize, large:
         }
     }
     if large {
-        col.class("large:sampled-probes");
+        col.class(if mode == 2 { "scale:sampled-probes" } else { "large:sampled-probes" });
         col.evals_add(17);
         return finish(col, &prog, &shape, true);
     }
@@ -489,6 +576,35 @@ fn full_probe_large<G: CurveTag>(n1: usize, n2: usize, col: &mut Collector) -> V
     fails
 }
 
+/// circuits at scale: `n1` first-phase and `n2` second-phase gates, `m` commitments
+fn scale_case<G: CurveTag>(n1: usize, n2: usize, m: usize, col: &mut Collector) -> Result<(), Failure> {
+    use crate::program::{Op, Program, Sc, Var};
+    use crate::scalars::ScalarSpec;
+    let mut ops = vec![];
+    for j in 0..m {
+        ops.push(Op::Commit { v: ScalarSpec::Small(3 + j as u64), blind: ScalarSpec::Rand(8 + j as u64) });
+    }
+    for i in 0..n1 {
+        ops.push(Op::AllocMul { l: Sc::C(ScalarSpec::Small(1 + i as u64)), r: Sc::C(ScalarSpec::Rand(i as u64)) });
+    }
+    if m > 0 {
+        ops.push(Op::Constrain { lc: vec![(Var::Com(m - 1), Sc::C(ScalarSpec::One))], err: None, base: None });
+    }
+    if n2 > 0 {
+        let mut body = vec![Op::Challenge { label: 0 }];
+        for i in 0..n2 {
+            body.push(Op::AllocMul { l: Sc::MulReg(ScalarSpec::Small(1 + i as u64), 0), r: Sc::C(ScalarSpec::Small(2)) });
+        }
+        ops.push(Op::Closure(body));
+    }
+    let prog = Program { curve: G::CURVE, tlabel: 0, pre: vec![], ops, owned: false, cap_p: Cap::Exact, cap_v: Cap::Exact, party_cap: 1, seed: (n1 * 31 + m) as u64, pc: 0, gens: 0 };
+    let bytes: Vec<u8> = (0..64u32).map(|i| (i.wrapping_mul(2654435761) >> 13) as u8 ^ n1 as u8 ^ m as u8).collect();
+    let mut ch = Choices::new(&bytes);
+    check_prog::<G>(prog, &mut ch, col, 2)?;
+    col.class("scale");
+    Ok(())
+}
+
 fn finish(col: &mut Collector, prog: &crate::program::Program, shape: &crate::program::Shape, probed: bool) -> Result<(), Failure> {
     if probed {
         col.class("probed");
@@ -521,6 +637,10 @@ fn dispatch(sub: &str, bytes: &[u8], col: &mut Collector) -> Result<(), Failure>
 }
 
 pub fn replay(sub: &str, bytes: &[u8], col: &mut Collector) -> Result<(), Failure> {
+    if sub == "c09/scale" && bytes.len() == 7 {
+        let u = |i: usize| (bytes[i] as usize) << 8 | bytes[i + 1] as usize;
+        return with_curve!(Curve::ALL[bytes[0] as usize % 3], G => scale_case::<G>(u(1), u(3), u(5), col));
+    }
     dispatch(sub, bytes, col)
 }
 
@@ -556,6 +676,26 @@ pub fn run(tier: &str, seed: u64) -> i32 {
                 rep.outcome.found.push(crate::runner::Found { failure: f, bytes: None, sub: "c09/full-probe-large".into() });
             }
         }
+    }
+    // circuits at scale: thousands of gates in a phase, more than a thousand commitments
+    if rep.outcome.found.is_empty() {
+        let mut items: Vec<(Curve, usize, usize, usize)> = vec![];
+        if tier == "thorough" {
+            for c in Curve::ALL {
+                items.extend([(c, 4096, 0, 2), (c, 1000, 4100, 1), (c, 8, 0, 1025), (c, 3, 2, 2100), (c, 2048, 2048, 0), (c, 8200, 0, 1)]);
+            }
+        } else {
+            let c = Curve::ALL[((seed + 1) % 3) as usize];
+            items.extend([(c, 4096, 0, 2), (c, 8, 0, 1025), (c, 600, 520, 3)]);
+        }
+        let o = crate::runner::enumerate(
+            "c09/scale",
+            &items,
+            &|(c, a, b, m)| vec![c.index() as u8, (*a >> 8) as u8, *a as u8, (*b >> 8) as u8, *b as u8, (*m >> 8) as u8, *m as u8],
+            &|(c, a, b, m), col| with_curve!(*c, G => scale_case::<G>(*a, *b, *m, col)),
+        );
+        rep.outcome.merge(o);
+        rep.outcome.exhaustive = false;
     }
     for (c, f) in [("probed", 0.5), ("second-phase-gates", 0.1), ("zero-gates", 0.03), ("with-commitments", 0.3), ("full-algebraic-opening(padded=1)", 0.05), ("blinding-scalars-recomputed", 0.5)] {
         rep.required_classes.push((c.to_string(), f));
